@@ -52,6 +52,7 @@ LEVELS = {
             "Coq theorem (renaming) + relabelling oracle (partial)"),
     "C10": ("state-machine model of the ForSys stores with symbolic result tokens; theorem for every history: frame t reports the "
             "token of the last matrix (re)build preceding its last solve, independent of everything else; stores keyed by frame; "
+            "the write-back of a solve onto the mesh edges is modelled and proved (entries of the system, zero for excluded internal interfaces, others unchanged, independent of earlier contents) and compared exactly with the implementation; "
             "after every operation of random histories the implementation's stores are compared bitwise with fresh objects", "5/C10",
             "Coq invariant over unbounded histories + differential comparison with fresh objects"),
     "C12": ("theorems for every pool / radius schedule / initial guess: no two vertices share a target, pairings honoured, targets are end points, every end point is mapped, a chosen target was free, forward-then-backward returns the start; small motions are followed: when every end point moves by less than d, d is at most half the spacing of the next frame's end points and at most the largest search radius, create_mapping maps every end point to its true successor for any numbering and pool order (over Q; find_best incl. the stale-radius second pass); tied to the code by exact correspondence; the floating-point implementation and the bounding-box clause are evaluated by the oracle", "5/C12",
